@@ -22,7 +22,7 @@ PROPS = {
                  "function is non-constant; distinct = hash of (forest spec, shape, expected tables)"),
         "passes": {
             "quick": [P("main", "asan", 1600)],
-            "thorough": [P("main", "asan", 40000), P("memcheck", "opt", 640, runner="valgrind", chunk=20, timeout=3600)],
+            "thorough": [P("main", "asan", 16000), P("memcheck", "opt", 640, runner="valgrind", chunk=20, timeout=3600)],
         },
         "require_counters": ["single_minterm", "collection", "constant", "edge_for_var", "points_evaluated"],
         "assumptions": ASSUME_COMMON,
@@ -39,7 +39,7 @@ PROPS = {
                  "distinct = hash of shape and result tables"),
         "passes": {
             "quick": [P("main", "asan", 376 + 700)],
-            "thorough": [P("main", "asan", 376 + 30000)],
+            "thorough": [P("main", "asan", 376 + 8000)],
         },
         "require_counters": ["exhaustive_set_applies", "exhaustive_rel_applies", "exhaustive_cross_applies", "apply_UNION",
                              "apply_COMPLEMENT", "apply_CROSS", "distinct_forests_same_rule", "operand_rechecks"],
@@ -57,7 +57,7 @@ PROPS = {
                  "operand tables, ops, shape, kind"),
         "passes": {
             "quick": [P("main", "asan", 1600)],
-            "thorough": [P("main", "asan", 40000)],
+            "thorough": [P("main", "asan", 16000)],
         },
         "require_counters": ["apply_PLUS", "apply_MINUS", "apply_MULTIPLY", "apply_DIVIDE", "apply_MODULO", "apply_MAXIMUM", "apply_MINIMUM",
                              "apply_DIST_MIN", "apply_EQUAL", "apply_LESS_THAN", "apply_user_unary", "apply_RANGE", "apply_DIST_INC",
@@ -93,7 +93,7 @@ PROPS = {
                  "distinct = (case, request/recycle counts)"),
         "passes": {
             "quick": [P("main", "asan", 400)],
-            "thorough": [P("main", "asan", 6000)],
+            "thorough": [P("main", "asan", 4000)],
         },
         "require_counters": ["requests", "recycles", "chunk_verifications", "style:ORIGINAL_GRID:g4", "style:ARRAY_PLUS_GRID:g4",
                              "style:HEAP_MANAGER:g4", "style:MALLOC_MANAGER:g4", "style:FREELISTS:g4", "style:ORIGINAL_GRID:g8",
@@ -111,7 +111,7 @@ PROPS = {
                  "forests audited (M1-M3).  non-trivial = some source function is non-constant; distinct = hash(pair, shape, tables)"),
         "passes": {
             "quick": [P("main", "asan", 2000)],
-            "thorough": [P("main", "asan", 50000)],
+            "thorough": [P("main", "asan", 20000)],
         },
         "require_counters": ["copies", "round_trips", "round_trips_lossless", "points_evaluated", "cases_with_larger_primed_bounds"],
         "assumptions": ASSUME_COMMON,
@@ -126,7 +126,7 @@ PROPS = {
                  "non-default; distinct = hash(forest, shape, tables)"),
         "passes": {
             "quick": [P("main", "asan", 2000)],
-            "thorough": [P("main", "asan", 50000)],
+            "thorough": [P("main", "asan", 20000)],
         },
         "require_counters": ["full_iterations", "masked_iterations", "masks_selecting_proper_subset", "cardinalities", "graph_counts"],
         "assumptions": ASSUME_COMMON,
@@ -141,7 +141,7 @@ PROPS = {
                  "identical edge.  non-trivial = a set with more than one member that is not the full set; distinct = hash(shape, rule, sets)"),
         "passes": {
             "quick": [P("main", "asan", 1500)],
-            "thorough": [P("main", "asan", 40000)],
+            "thorough": [P("main", "asan", 15000)],
         },
         "require_counters": ["huge_cases", "lookups_beyond_2^31", "conversions", "lookups_in_range", "lookups_out_of_range", "empty_sets", "full_sets", "audit_index_cardinalities"],
         "assumptions": ASSUME_COMMON,
@@ -157,7 +157,7 @@ PROPS = {
                  "relation / non-zero product; distinct = hash(shape, mode, tables)"),
         "passes": {
             "quick": [P("main", "asan", 2000)],
-            "thorough": [P("main", "asan", 50000)],
+            "thorough": [P("main", "asan", 20000)],
         },
         "require_counters": ["post_images", "pre_images", "vm_multiplies", "mv_multiplies", "image_mode_bool", "image_mode_mtdist", "image_mode_evplus"],
         "assumptions": ASSUME_COMMON,
@@ -173,7 +173,7 @@ PROPS = {
                  "forests audited.  non-trivial = closure strictly between the initial set and the whole space; distinct = hash(shape, config, tables)"),
         "passes": {
             "quick": [P("main", "asan", 1200)],
-            "thorough": [P("main", "asan", 30000)],
+            "thorough": [P("main", "asan", 12000)],
         },
         "require_counters": ["runs_REACHABLE_TRAD_FS", "runs_REACHABLE_TRAD_NOFS", "runs_REACHABLE_SATUR", "algorithm_agreements", "repeated_calls_same_forests"],
         "assumptions": ASSUME_COMMON,
@@ -189,7 +189,7 @@ PROPS = {
                  "everything; distinct = hash(shape, forests, union relation, init)"),
         "passes": {
             "quick": [P("main", "asan", 1500)],
-            "thorough": [P("main", "asan", 30000)],
+            "thorough": [P("main", "asan", 12000)],
         },
         "require_counters": ["runs_by-events", "runs_levels:None", "runs_levels:SplitOnly", "runs_levels:SplitSubtract", "runs_levels:SplitSubtractAll",
                              "runs_levels:MonolithicSplit", "cases_all_events_top_unchanged"],
@@ -206,7 +206,7 @@ PROPS = {
                  "root; distinct = hash(forest, shape, root tables)"),
         "passes": {
             "quick": [P("main", "asan", 1500)],
-            "thorough": [P("main", "asan", 40000)],
+            "thorough": [P("main", "asan", 15000)],
         },
         "require_counters": ["files_written", "reads_same-forest", "reads_other-forest", "reads_forest-from-file", "domains_read_back", "reads_domain-and-forest-from-file", "empty_root_lists", "refcounts_checked"],
         "assumptions": ASSUME_COMMON,
@@ -223,7 +223,7 @@ PROPS = {
                  "handle issue/recycle.  non-trivial = more than 20 nodes audited; distinct = hash of the script"),
         "passes": {
             "quick": [P("main", "asan", 700)],
-            "thorough": [P("main", "asan", 12000)],
+            "thorough": [P("main", "asan", 4000)],
         },
         "require_counters": ["audit_nodes", "audit_primed_nodes", "audit_singleton_edge_checks", "audit_stored_sparse", "audit_stored_full",
                              "refcounts_checked", "cachecount_audits", "script_binops", "script_copies", "script_churns", "handles_reissued"],
@@ -240,7 +240,7 @@ PROPS = {
                  "non-trivial = at least one pair with equal functions AND one with different functions compared; distinct = hash of the script"),
         "passes": {
             "quick": [P("main", "asan", 600)],
-            "thorough": [P("main", "asan", 15000)],
+            "thorough": [P("main", "asan", 3000)],
         },
         "require_counters": ["canonicity_pairs_checked", "canonicity_pairs_equal_functions", "functions_rebuilt_after_churn", "handles_reissued",
                              "script_copies", "script_file_roundtrips"],
@@ -272,7 +272,7 @@ PROPS = {
                  "which non-zero cache counts were audited and handles were re-issued; distinct = hash of the script"),
         "passes": {
             "quick": [P("main", "asan", 260)],
-            "thorough": [P("main", "asan", 2500)],
+            "thorough": [P("main", "asan", 1500)],
         },
         "require_counters": ["configurations_run", "cachecount_audits", "cachecounts_nonzero_checked", "cache_entries_on_deleted_handles",
                              "handles_reissued", "ct_style:0", "ct_style:1", "ct_style:2", "ct_style:3", "ct_stale:0", "ct_stale:2", "ct_max:1024"],
@@ -292,7 +292,7 @@ PROPS = {
                  "non-trivial = more than 50 incoming counts compared (or a width case); distinct = hash of the script"),
         "passes": {
             "quick": [P("main", "asan", 640)],
-            "thorough": [P("main", "asan", 12000)],
+            "thorough": [P("main", "asan", 3000)],
         },
         "require_counters": ["refcounts_checked", "leak_checks", "width_cases", "mixed_width_cases", "mixed_width_second_node_passes_255_once_in_32bit_mode", "crossed_8_to_16_bit", "crossed_16_to_32_bit", "cachecount_width_cases",
                              "handles_reissued", "script_assignments", "script_self_assignments", "script_releases", "deletion:pessimistic", "deletion:optimistic", "deletion:never"],
@@ -310,7 +310,7 @@ PROPS = {
                  "count as unsupported.  non-trivial = the order actually changed with at least one held edge; distinct = hash(config, shape, tables, orders)"),
         "passes": {
             "quick": [P("main", "asan", 1600)],
-            "thorough": [P("main", "asan", 40000)],
+            "thorough": [P("main", "asan", 16000)],
         },
         "require_counters": ["reorderings", "heuristic:LOWEST_INVERSION", "heuristic:HIGHEST_INVERSION", "heuristic:SINK_DOWN", "heuristic:BRING_UP",
                              "heuristic:LOWEST_COST", "heuristic:LOWEST_MEMORY", "heuristic:RANDOM", "heuristic:LARC", "swap:VAR", "cases_with_warm_caches"],
@@ -331,7 +331,7 @@ PROPS = {
                  "compared with the model; ASan/UBSan watch the unwinding.  non-trivial = every case; distinct = hash(domains, class order, tables)"),
         "passes": {
             "quick": [P("main", "asan", 500)],
-            "thorough": [P("main", "asan", 8000)],
+            "thorough": [P("main", "asan", 5000)],
         },
         "require_counters": ["errors_provoked", "aftermath_checks", "followup_operations", "class:DIVIDE:zero-divisor-deep-in-the-diagram",
                              "class:edge-of-a-destroyed-forest:operand", "class:iterator:dereference-after-the-end", "class:binary:operands-from-different-domains"],
@@ -355,7 +355,7 @@ PROPS = {
                  "non-trivial = every case; distinct = hash of the action trace"),
         "passes": {
             "quick": [P("main", "asan", 800), P("reuse", "opt", 800)],
-            "thorough": [P("main", "asan", 15000), P("reuse", "opt", 15000)],
+            "thorough": [P("main", "asan", 8000), P("reuse", "opt", 8000)],
         },
         "require_counters": ["initializations", "cleanups", "forests_destroyed", "domains_destroyed", "orphan_edges_checked", "orphan_edge_uses_rejected", "operations_checked_gone", "orphans_reattached",
                              "operations_spanning_two_forests", "edges_destroyed_after_cleanup", "iterators_created", "cross_domain_rejections"],
